@@ -121,6 +121,9 @@ def prove(pid, thorough=False):
         res["failed"].append("no theorem files for " + pid)
         return res
     with LakeLock():
+        # the spec driver imports nothing regenerated (no change to /repo can stop it building); it is rebuilt here so
+        # that a checkout whose build output is older than its sources never answers with a stale function table
+        sh(["lake", "build", "specdriver"], cwd=core.LEAN_DIR)
         rc, out = sh(["lake", "build", "Acra.Audit", "driver"] + [m for m, _ in mods], cwd=core.LEAN_DIR)
         res["log"] = out[-4000:]
         built = {}
